@@ -556,6 +556,42 @@ def _judge_fit_unforced(rng, tag):
     return None
 
 
+def _judge_standalone_train(rng, tag):
+    """a readout trained ALONE with Node.train (teachers forced, the default), then reset, then used as feedback sender in a model run:
+    the receiver's first step must see the sender's state after the reset (zero), not the last teacher value"""
+    import reservoirpy as rpy
+    rpy.verbosity(0)
+    from reservoirpy.node import Node
+    from reservoirpy.nodes import RLS
+    seen = []
+
+    def init(node, x=None, **kw):
+        node.set_input_dim(x.shape[1]); node.set_output_dim(x.shape[1])
+
+    def fwd(node, x):
+        fb = np.asarray(node.feedback()).reshape(1, -1)
+        seen.append(fb.ravel().copy())
+        return x + 100.0 * fb[:, :1]
+    T = 4
+    X = scen.fl(scengen.rows(rng, T, 1)); Y = scen.fl(scengen.rows(rng, T, 1, lim=8)) + 3.0
+    sc = {"tag": tag, "kind": "standalone-train"}
+    ro = RLS(1, name="st%s_ro" % tag)
+    R = Node(forward=fwd, initializer=init, name="st%s_R" % tag)
+    try:
+        ro.train(X, Y)
+        ro.reset()
+        R <<= ro
+        m = R >> ro
+        m.run(scen.fl(scengen.rows(rng, 2, 1)))
+    except Exception as ex:  # noqa: BLE001
+        return _viol("standalone-train:exception", "train alone, reset, then run in a feedback model raises %r" % (ex,), sc)
+    if not seen or not np.allclose(seen[0], 0.0, atol=1e-12):
+        return _viol("standalone-train:teacher-left-in-state-proxy", "after readout.train(X, Y) alone and readout.reset(), the first step of a model run hands the "
+                     "feedback receiver %s (the last teacher value, still held in the sender's state proxy) instead of the reset state 0"
+                     % (seen[0].tolist() if seen else None), sc, [0.0], seen[0].tolist() if seen else None)
+    return None
+
+
 def judge(case):
     if case.get("kind") in ("modeltrain", "fitfb"):       # Model.train history / fit-with-feedback scenario: decided by the correspondence only
         return None
@@ -577,7 +613,8 @@ def oracle(ctx, scale=1):
         out += _judge_teacher_node_gate(rng, "%d_%d" % (ctx.seed, i))
         for v in (_judge_list_sender(rng, "%d_%d" % (ctx.seed, i)), _judge_esn_forced(rng, "%d_%d" % (ctx.seed, i)),
                   _judge_deep_fit_forcing(rng, "%d_%d" % (ctx.seed, i)), _judge_teacher_node(rng, "%d_%d" % (ctx.seed, i)),
-                  _judge_esn_handwired(rng, "%d_%d" % (ctx.seed, i)), _judge_fit_unforced(rng, "%d_%d" % (ctx.seed, i))):
+                  _judge_esn_handwired(rng, "%d_%d" % (ctx.seed, i)), _judge_fit_unforced(rng, "%d_%d" % (ctx.seed, i)),
+                  _judge_standalone_train(rng, "%d_%d" % (ctx.seed, i))):
             if v:
                 out.append(v)
     return {"evaluations": n + ctx.n(3, 20), "violations": out,
@@ -597,6 +634,9 @@ def replay(payload):
         return {"violates": bool(vs), "detail": vs[:1]}
     if sc.get("kind") == "fit-unforced":
         vs = [v for v in (_judge_fit_unforced(core.random.Random(i), "rf%d" % i) for i in range(3)) if v]
+        return {"violates": bool(vs), "detail": vs[:1]}
+    if sc.get("kind") == "standalone-train":
+        vs = [v for v in (_judge_standalone_train(core.random.Random(i), "rs%d" % i) for i in range(3)) if v]
         return {"violates": bool(vs), "detail": vs[:1]}
     if sc.get("kind") == "teacher-node-gate":
         vs = [v for i in range(3) for v in _judge_teacher_node_gate(core.random.Random(i), "rg%d" % i) if v["key"] == payload.get("key", v["key"])]
